@@ -20,7 +20,6 @@ import (
 	"reflect"
 	"strings"
 	"sync"
-	"time"
 
 	"github.com/cloudwego/eino/components/model"
 	"github.com/cloudwego/eino/compose"
@@ -268,20 +267,18 @@ func runHost(tg *hostTarget, c *Case, mode string) (o HostRun) {
 			final, err = schema.ConcatMessageStream(sr)
 		})
 	}()
-	select {
-	case p := <-done:
-		switch {
-		case p != nil:
-			o.Out = Out{Class: "panic", ErrMsg: short(fmt.Sprint(p))}
-		case err != nil:
-			o.Out = Out{Class: "err", Err: classify(err), ErrMsg: short(err.Error())}
-		default:
-			m := render(final)
-			o.Out = Out{Class: "final", Msg: &m}
-		}
-	case <-time.After(10 * time.Second):
+	p, returned := awaitRun(done)
+	switch {
+	case !returned:
 		o.Out = Out{Class: "hang"}
 		return
+	case p != nil:
+		o.Out = Out{Class: "panic", ErrMsg: short(fmt.Sprint(p))}
+	case err != nil:
+		o.Out = Out{Class: "err", Err: classify(err), ErrMsg: short(err.Error())}
+	default:
+		m := render(final)
+		o.Out = Out{Class: "final", Msg: &m}
 	}
 	if !reflect.DeepEqual(renderAll(in), inBefore) {
 		o.InMut = true
